@@ -497,7 +497,7 @@ func c11System(cfg c11Cfg) *bfs.System[W, tfOp] {
 	})
 	return &bfs.System[W, tfOp]{Name: cfg.name, Inits: inits, Ops: c11Ops(cfg), Apply: c11Apply, Label: c11Label,
 		Check: func(w W) (string, string) { return w.Check() }, Key: func(w W) string { return w.Key() },
-		MaxDepth: cfg.depth, Describe: func(w W) string { return w.Describe() }, Touch: func(w W) { w.Touch() }}
+		MaxDepth: cfg.depth, Describe: func(w W) string { return w.Describe() }}
 }
 
 func runC11(c *ev.Ctx) {
